@@ -425,8 +425,10 @@ func (sp *sysSpace) build(idx int, r *vc.Rand) *Scenario {
 		}
 	}
 	if r.Chance(1, 3) {
-		// a peer that simply carries on with the handshake afterwards
-		for i := 0; i < 9; i++ {
+		// a peer (and a user) that simply carry on with the handshake afterwards: the rest of the cooperative
+		// script, which contains the user's approval where one is needed
+		sc.Steps = append(sc.Steps, script[c.prefix:]...)
+		for i := 0; i < 3; i++ {
 			sc.Steps = append(sc.Steps, Step{Op: "coop", Settle: true})
 		}
 		return sc
